@@ -319,6 +319,15 @@ theorem aux_penComps (skip : Bool) (g : Glyph) (ks : List Comp) : (penComps skip
     · rename_i g1 heq; rw [heq] at h1; exact (ih g1).trans h1
     · rename_i g1 heq; rw [heq] at h1; exact h1
 
+/-! ### loading shallow contours touches neither the staged objects nor the leak list -/
+
+theorem aux_deepen (g : Glyph) : (deepen g).aux = g.aux := by
+  unfold deepen; split
+  · split <;> rfl
+  · rfl
+
+theorem aux_markShallow (g : Glyph) : (markShallow g).aux = g.aux := rfl
+
 /-! ### the pen -/
 
 /-- everything of `aux` except the pen's contour -/
@@ -381,7 +390,12 @@ theorem penEnd_spec (g : Glyph) (hc : g.cur.isSome = true) :
   unfold penEnd
   split
   · rename_i h; rw [h] at hc; cases hc
-  · exact ⟨rfl, rfl, rfl⟩
+  · have ha := aux_deepen g
+    unfold Glyph.aux at ha
+    simp only [Prod.mk.injEq] at ha
+    refine ⟨rfl, rfl, ?_⟩
+    unfold Glyph.rest
+    simp [ha]
 
 /-- one contour through a pen that holds none: nothing else is touched; on success the pen holds
 none again; with `skipConflictingIdentifiers` it always succeeds -/
@@ -630,50 +644,63 @@ theorem copyFrom_spec (g src : Glyph) (h : g.Settled) :
     · rename_i hne
       exact ⟨ha.1, fun hr => absurd hr (by simpa using hne)⟩
 
+theorem deserializeTail_spec (g1 src : Glyph) (rm : Removed) (l0 : List Id)
+    (h : g1.cur = none ∧ g1.stC = [] ∧ g1.stA = [] ∧ g1.stG = [] ∧ g1.leaked = l0) :
+    (deserializeTail g1 src rm).1.Settled ∧
+    ((deserializeTail g1 src rm).2.1 = .ok → (deserializeTail g1 src rm).1.leaked = l0) := by
+  unfold deserializeTail
+  have h2 := stageAll_comps g1 src.comps l0 h
+  try dsimp only
+  split
+  · exact ⟨settled_abandon _, fun hr => by simp at hr⟩
+  · rename_i g2 heq2
+    rw [heq2] at h2
+    have h3 := stageAll_guides ({ g2 with comps := g2.comps ++ g2.stK, stK := [] } : Glyph) src.guides l0
+      ⟨h2.1, h2.2.1, rfl, h2.2.2.1, h2.2.2.2.2⟩
+    try dsimp only
+    split
+    · exact ⟨settled_abandon _, fun hr => by simp at hr⟩
+    · rename_i g3 heq3
+      rw [heq3] at h3
+      have ha := commitGuides_spec g3 ⟨h3.1, h3.2.1, h3.2.2.1, h3.2.2.2.1⟩
+      try dsimp only
+      split
+      · rename_i hok
+        have hl := (ha.2 hok).trans h3.2.2.2.2
+        have h4 := stageAll_anchors (commitGuides g3).1 src.anchors l0
+          ⟨ha.1.1, ha.1.2.1, ha.1.2.2.1, ha.1.2.2.2.2, hl⟩
+        split
+        · exact ⟨settled_abandon _, fun hr => by simp at hr⟩
+        · rename_i g4 heq4
+          rw [heq4] at h4
+          have hb := commitAnchors_spec g4 ⟨h4.1, h4.2.1, h4.2.2.1, h4.2.2.2.1⟩
+          exact ⟨hb.1, fun hr => (hb.2 hr).trans h4.2.2.2.2⟩
+      · rename_i hne
+        exact ⟨ha.1, fun hr => absurd hr (by simpa using hne)⟩
+
 theorem deserialize_spec (g src : Glyph) (h : g.Settled) :
     (deserialize g src).1.Settled ∧ ((deserialize g src).2.1 = .ok → (deserialize g src).1.leaked = g.leaked) := by
   unfold deserialize
-  have hc := settled_of_aux h (aux_clearGlyph g)
+  have hd := settled_of_aux h (aux_deepen g)
+  have hc := settled_of_aux hd.1 (aux_clearGlyph (deepen g))
+  have hl : (clearGlyph (deepen g)).1.leaked = g.leaked := hc.2.trans hd.2
   try dsimp only
   split
-  · have h1 := stageAll_contours (clearGlyph g).1 src.contours hc.1.1
-    split
-    · exact ⟨settled_abandon _, fun hr => by simp at hr⟩
-    · rename_i g1 heq
-      rw [heq] at h1
-      have hcur1 : g1.cur = none := h1.2 rfl
-      have hr1 := h1.1
-      unfold Glyph.rest4 at hr1
-      simp only [Prod.mk.injEq] at hr1
-      have h2 := stageAll_comps ({ g1 with contours := g1.contours ++ g1.stC, stC := [] } : Glyph) src.comps g.leaked
-        ⟨hcur1, rfl, hr1.2.1.trans hc.1.2.2.2.1, hr1.2.2.1.trans hc.1.2.2.2.2, hr1.2.2.2.trans hc.2⟩
-      try dsimp only
+  · split
+    · split
+      · exact ⟨hc.1, fun hr => by simp at hr⟩
+      · exact deserializeTail_spec _ src _ g.leaked ⟨hc.1.1, hc.1.2.1, hc.1.2.2.2.1, hc.1.2.2.2.2, hl⟩
+    · have h1 := stageAll_contours (clearGlyph (deepen g)).1 src.contours hc.1.1
       split
       · exact ⟨settled_abandon _, fun hr => by simp at hr⟩
-      · rename_i g2 heq2
-        rw [heq2] at h2
-        have h3 := stageAll_guides ({ g2 with comps := g2.comps ++ g2.stK, stK := [] } : Glyph) src.guides g.leaked
-          ⟨h2.1, h2.2.1, rfl, h2.2.2.1, h2.2.2.2.2⟩
-        try dsimp only
-        split
-        · exact ⟨settled_abandon _, fun hr => by simp at hr⟩
-        · rename_i g3 heq3
-          rw [heq3] at h3
-          have ha := commitGuides_spec g3 ⟨h3.1, h3.2.1, h3.2.2.1, h3.2.2.2.1⟩
-          try dsimp only
-          split
-          · rename_i hok
-            have hl := (ha.2 hok).trans h3.2.2.2.2
-            have h4 := stageAll_anchors (commitGuides g3).1 src.anchors g.leaked
-              ⟨ha.1.1, ha.1.2.1, ha.1.2.2.1, ha.1.2.2.2.2, hl⟩
-            split
-            · exact ⟨settled_abandon _, fun hr => by simp at hr⟩
-            · rename_i g4 heq4
-              rw [heq4] at h4
-              have hb := commitAnchors_spec g4 ⟨h4.1, h4.2.1, h4.2.2.1, h4.2.2.2.1⟩
-              exact ⟨hb.1, fun hr => (hb.2 hr).trans h4.2.2.2.2⟩
-          · rename_i hne
-            exact ⟨ha.1, fun hr => absurd hr (by simpa using hne)⟩
+      · rename_i g1 heq
+        rw [heq] at h1
+        have hcur1 : g1.cur = none := h1.2 rfl
+        have hr1 := h1.1
+        unfold Glyph.rest4 at hr1
+        simp only [Prod.mk.injEq] at hr1
+        exact deserializeTail_spec _ src _ g.leaked
+          ⟨hcur1, rfl, hr1.2.1.trans hc.1.2.2.2.1, hr1.2.2.1.trans hc.1.2.2.2.2, hr1.2.2.2.trans hl⟩
   · rename_i hne
     exact ⟨hc.1, fun hr => absurd hr (by simpa using hne)⟩
 
@@ -806,13 +833,13 @@ theorem aux_of_eq2 {α : Type} {f : Glyph × α} {g1 g : Glyph} {a : α} (heq : 
 theorem aux_of_eq3 {α β : Type} {f : Glyph × α × β} {g1 g : Glyph} {a : α} {b : β}
     (heq : f = (g1, a, b)) (h : f.1.aux = g.aux) : g1.aux = g.aux := by subst heq; exact h
 
-theorem q_step (L : Prop) (w : World) (op : Op) (h : ∀ g ∈ w.conts, Q L g)
-    (hc : L → Op.inst op = false ∧ (Op.composite op = true → (step w op).2 = .ok)) :
-    ∀ g ∈ (step w op).1.conts, Q L g := by
+theorem q_stepL (L : Prop) (w : World) (op : Op) (h : ∀ g ∈ w.conts, Q L g)
+    (hc : L → Op.inst op = false ∧ (Op.composite op = true → (stepL w op).2 = .ok)) :
+    ∀ g ∈ (stepL w op).1.conts, Q L g := by
   cases op with
   | insContour t r c => exact q_on h t _ (fun g => aux_insertContour g _ _)
   | reinsContour t r k =>
-    simp only [step]
+    simp only [stepL]
     split
     · exact h
     · split
@@ -822,74 +849,74 @@ theorem q_step (L : Prop) (w : World) (op : Op) (h : ∀ g ∈ w.conts, Q L g)
           exact q_put h (q_of_aux (q_get h t) (aux_of_eq2 heq (aux_insertContour _ _ _))) t
         · exact h
   | rmContour t r =>
-    simp only [step]
+    simp only [stepL]
     split
     · exact h
     · split <;>
         (rename_i heq; exact q_put h (q_of_aux (q_get h t) (aux_of_eq3 heq (aux_removeContour _ _))) t)
   | clearContours t =>
-    simp only [step]
+    simp only [stepL]
     exact q_put h (q_of_aux (q_get h t) (aux_clearContours _ _)) t
   | insPoint t rc rp p =>
-    simp only [step]
+    simp only [stepL]
     split
     · exact h
     · exact q_on h t _ (fun g => aux_insertPoint g _ _ _)
   | addPoint t rc p =>
-    simp only [step]
+    simp only [stepL]
     split
     · exact h
     · exact q_on h t _ (fun g => aux_insertPoint g _ _ _)
   | rmPoint t rc rp =>
-    simp only [step]
+    simp only [stepL]
     split
     · exact h
     · split
       · exact h
       · exact q_on h t _ (fun g => aux_removePoint g _ _)
   | clearContour t rc =>
-    simp only [step]
+    simp only [stepL]
     split
     · exact h
     · exact q_on h t _ (fun g => aux_clearContour g _)
   | reverse t rc =>
-    simp only [step]
+    simp only [stepL]
     split
     · exact h
     · exact q_on h t _ (fun g => aux_reverse g _)
   | rmSegment t rc rs preserve =>
-    simp only [step]
+    simp only [stepL]
     split
     · exact h
     · split
       · exact h
       · exact q_on h t _ (fun g => aux_removeSegment g _ _ _)
   | split t rc rs =>
-    simp only [step]
+    simp only [stepL]
     split
     · exact h
     · split
       · exact h
       · exact q_on h t _ (fun g => aux_split g _ _)
   | setStart t rc rp =>
-    simp only [step]
+    simp only [stepL]
     split
     · exact h
     · split
       · exact h
       · exact q_on h t _ (fun g => aux_setStart g _ _)
   | setContourId t rc v =>
-    simp only [step]
+    simp only [stepL]
     split
     · exact h
     · exact q_on h t _ (fun g => aux_setContourId g _ _)
   | genContourId t rc cands =>
-    simp only [step]
+    simp only [stepL]
     split
     · exact h
     · exact q_on h t _ (fun g => aux_genContourId g _ _)
   | genPointId t rc rp cands =>
-    simp only [step]
+    simp only [stepL]
     split
     · exact h
     · split
@@ -897,7 +924,7 @@ theorem q_step (L : Prop) (w : World) (op : Op) (h : ∀ g ∈ w.conts, Q L g)
       · exact q_on h t _ (fun g => aux_genPointId g _ _ _)
   | insComp t r k => exact q_on h t _ (fun g => aux_insertComp g _ _)
   | reinsComp t r k =>
-    simp only [step]
+    simp only [stepL]
     split
     · exact h
     · split
@@ -909,26 +936,26 @@ theorem q_step (L : Prop) (w : World) (op : Op) (h : ∀ g ∈ w.conts, Q L g)
             exact q_put h (q_of_aux (q_get h t) (aux_of_eq2 heq (aux_insertComp _ _ _))) t
           · exact h
   | rmComp t r =>
-    simp only [step]
+    simp only [stepL]
     split
     · exact h
     · split <;>
         (rename_i heq; exact q_put h (q_of_aux (q_get h t) (aux_of_eq3 heq (aux_removeComp _ _))) t)
   | clearComps t =>
-    simp only [step]
+    simp only [stepL]
     exact q_put h (q_of_aux (q_get h t) (aux_clearComps _ _)) t
   | setCompId t r v =>
-    simp only [step]
+    simp only [stepL]
     split
     · exact h
     · exact q_on h t _ (fun g => aux_setCompId g _ _)
   | genCompId t r cands =>
-    simp only [step]
+    simp only [stepL]
     split
     · exact h
     · exact q_on h t _ (fun g => aux_genCompId g _ _)
   | decompose t r =>
-    simp only [step]
+    simp only [stepL]
     split
     · exact h
     · rename_i i _
@@ -938,13 +965,13 @@ theorem q_step (L : Prop) (w : World) (op : Op) (h : ∀ g ∈ w.conts, Q L g)
         (rename_i heq; rw [heq] at hd
          exact q_put h (q_of_spec (c := True) hq ⟨hd.1, fun _ => hd.2⟩ (fun _ => trivial)) t)
   | decomposeAll t =>
-    simp only [step]
+    simp only [stepL]
     have hq := q_get h t
     have hd := decomposeAll_spec w.conts (w.get t).comps.length (w.get t) hq.1
     exact q_put h (q_of_spec (c := True) hq ⟨hd.1, fun _ => hd.2⟩ (fun _ => trivial)) t
   | insAnchor t r v d => exact q_on h t _ (fun g => aux_insertAnchor g _ _)
   | reinsAnchor t r k =>
-    simp only [step]
+    simp only [stepL]
     split
     · exact h
     · split
@@ -954,30 +981,30 @@ theorem q_step (L : Prop) (w : World) (op : Op) (h : ∀ g ∈ w.conts, Q L g)
           exact q_put h (q_of_aux (q_get h t) (aux_of_eq2 heq (aux_insertAnchor _ _ _))) t
         · exact h
   | rmAnchor t r =>
-    simp only [step]
+    simp only [stepL]
     split
     · exact h
     · split <;>
         (rename_i heq; exact q_put h (q_of_aux (q_get h t) (aux_of_eq3 heq (aux_removeAnchor _ _))) t)
   | clearAnchors t =>
-    simp only [step]
+    simp only [stepL]
     exact q_put h (q_of_aux (q_get h t) (aux_clearAnchors _ _)) t
   | setAnchorId t r v =>
-    simp only [step]
+    simp only [stepL]
     split
     · exact h
     · exact q_on h t _ (fun g => aux_setAnchorId g _ _)
   | genAnchorId t r cands =>
-    simp only [step]
+    simp only [stepL]
     split
     · exact h
     · exact q_on h t _ (fun g => aux_genAnchorId g _ _)
   | setAnchors t vs =>
-    simp only [step]
+    simp only [stepL]
     exact q_put h (q_of_aux (q_get h t) (aux_setAnchors _ _)) t
   | insGuide t r v d => exact q_on h t _ (fun g => aux_insertGuide g _ _)
   | reinsGuide t r k =>
-    simp only [step]
+    simp only [stepL]
     split
     · exact h
     · split
@@ -987,41 +1014,41 @@ theorem q_step (L : Prop) (w : World) (op : Op) (h : ∀ g ∈ w.conts, Q L g)
           exact q_put h (q_of_aux (q_get h t) (aux_of_eq2 heq (aux_insertGuide _ _ _))) t
         · exact h
   | rmGuide t r =>
-    simp only [step]
+    simp only [stepL]
     split
     · exact h
     · split <;>
         (rename_i heq; exact q_put h (q_of_aux (q_get h t) (aux_of_eq3 heq (aux_removeGuide _ _))) t)
   | clearGuides t =>
-    simp only [step]
+    simp only [stepL]
     exact q_put h (q_of_aux (q_get h t) (aux_clearGuides _ _)) t
   | setGuideId t r v =>
-    simp only [step]
+    simp only [stepL]
     split
     · exact h
     · exact q_on h t _ (fun g => aux_setGuideId g _ _)
   | genGuideId t r cands =>
-    simp only [step]
+    simp only [stepL]
     split
     · exact h
     · exact q_on h t _ (fun g => aux_genGuideId g _ _)
   | setGuides t vs =>
-    simp only [step]
+    simp only [stepL]
     exact q_put h (q_of_aux (q_get h t) (aux_setGuides _ _)) t
   | limboSetId kind k v =>
-    simp only [step]
+    simp only [stepL]
     repeat' split
     all_goals exact h
   | limboGenId kind k cands =>
-    simp only [step]
+    simp only [stepL]
     repeat' split
     all_goals exact h
   | limboAddPoint k p =>
-    simp only [step]
+    simp only [stepL]
     repeat' split
     all_goals exact h
   | clearGlyph t =>
-    simp only [step]
+    simp only [stepL]
     exact q_put h (q_of_aux (q_get h t) (aux_clearGlyph _)) t
   | draw t cs ks skip =>
     have hq := q_get h t
@@ -1051,7 +1078,7 @@ theorem q_step (L : Prop) (w : World) (op : Op) (h : ∀ g ∈ w.conts, Q L g)
     have hd := fontDeserialize_spec (w.get 3) hq.1
     exact q_put h (q_of_spec hq hd (fun l => (hc l).2 rfl)) 3
   | instAnchor t v =>
-    unfold step World.on
+    unfold stepL World.on
     refine q_put h ⟨?_, fun l => ?_⟩ t
     · have hq := q_get h t
       have hs := stageAnchor_spec (w.get t) v
@@ -1070,7 +1097,7 @@ theorem q_step (L : Prop) (w : World) (op : Op) (h : ∀ g ∈ w.conts, Q L g)
           hs.2.2.2.1.trans hq.1.2.2.2.2⟩
     · have := (hc l).1; simp [Op.inst] at this
   | instGuide t v =>
-    unfold step World.on
+    unfold stepL World.on
     refine q_put h ⟨?_, fun l => ?_⟩ t
     · have hq := q_get h t
       have hs := stageGuide_spec (w.get t) v
@@ -1097,7 +1124,7 @@ theorem q_step (L : Prop) (w : World) (op : Op) (h : ∀ g ∈ w.conts, Q L g)
     have e1 := readInto_spec {} (ds[1]?.getD {}) (q_empty L).1
     have e2 := readInto_spec {} (ds[2]?.getD {}) (q_empty L).1
     have ef := settled_of_aux (q_empty L).1 (aux_appendGuideDicts {} fg)
-    simp only [step] at hc ⊢
+    simp only [stepL] at hc ⊢
     split
     · rename_i hbad
       intro g hg
@@ -1112,8 +1139,9 @@ theorem q_step (L : Prop) (w : World) (op : Op) (h : ∀ g ∈ w.conts, Q L g)
         simp [hbad] at this
     · rename_i hgood
       simp only [not_or, Classical.not_not] at hgood
-      have h1 : ∀ g ∈ ({ w with conts := [(readInto {} (ds[0]?.getD {})).1, (readInto {} (ds[1]?.getD {})).1,
-          (readInto {} (ds[2]?.getD {})).1, (appendGuideDicts {} fg).1] } : World).conts, Q L g := by
+      have h1 : ∀ g ∈ ({ w with conts := [markShallow (readInto {} (ds[0]?.getD {})).1,
+          markShallow (readInto {} (ds[1]?.getD {})).1, markShallow (readInto {} (ds[2]?.getD {})).1,
+          (appendGuideDicts {} fg).1] } : World).conts, Q L g := by
         intro g hg
         simp only [List.mem_cons, List.not_mem_nil, or_false] at hg
         rcases hg with rfl | rfl | rfl | rfl
@@ -1125,25 +1153,49 @@ theorem q_step (L : Prop) (w : World) (op : Op) (h : ∀ g ∈ w.conts, Q L g)
       · exact h1
       · exact q_on h1 _ _ (fun g => aux_insertAnchor g _ _)
   | rmAbsentPoint t rc =>
-    simp only [step]
+    simp only [stepL]
     repeat' split
     all_goals exact h
   | rmAbsent kind t k =>
-    simp only [step]
+    simp only [stepL]
     repeat' split
     all_goals exact h
   | rmForeign kind t src r =>
-    simp only [step]
+    simp only [stepL]
     repeat' split
     all_goals exact h
   | insAnchorBad t r v => exact h
   | insGuideBad t r v => exact h
   | setAnchorsBad t vs =>
-    simp only [step]
+    simp only [stepL]
     exact q_put h (q_of_aux (q_get h t) (aux_setAnchors _ _)) t
   | setGuidesBad t vs =>
-    simp only [step]
+    simp only [stepL]
     exact q_put h (q_of_aux (q_get h t) (aux_setGuides _ _)) t
+  | load t => exact h
+  | insertGlyphVia t src =>
+    have hd1 := copyFrom_spec {} (w.get src) (q_empty L).1
+    have hd := copyFrom_spec {} (copyFrom {} (w.get src)).1 (q_empty L).1
+    simp only [stepL] at hc ⊢
+    split
+    · rename_i hok
+      simp only [hok] at hc
+      exact q_put h (q_of_spec (q_empty L) hd (fun l => (hc l).2 rfl)) t
+    · exact h
+
+theorem q_load {L : Prop} {w : World} (h : ∀ g ∈ w.conts, Q L g) (t : Nat) : ∀ g ∈ (w.load t).conts, Q L g :=
+  q_put h (q_of_aux (q_get h t) (aux_deepen _)) t
+
+theorem q_preload {L : Prop} {w : World} (h : ∀ g ∈ w.conts, Q L g) (op : Op) :
+    ∀ g ∈ (preload w op).conts, Q L g := by
+  unfold preload
+  repeat' split
+  all_goals first | exact h | exact q_load h _ | exact q_load (q_load h _) _
+
+theorem q_step (L : Prop) (w : World) (op : Op) (h : ∀ g ∈ w.conts, Q L g)
+    (hc : L → Op.inst op = false ∧ (Op.composite op = true → (step w op).2 = .ok)) :
+    ∀ g ∈ (step w op).1.conts, Q L g :=
+  q_stepL L (preload w op) op (q_preload h op) hc
 
 end Ident
 end DefconModel
